@@ -30,7 +30,7 @@ func TestVerifC27StraceChild(t *testing.T) {
 	n, _ := strconv.Atoi(os.Getenv("C27_STRACE_N"))
 	rnd := vNewRand(seed + 77)
 	for k := 0; k < n; k++ {
-		s := c27GenStream(rnd, k)
+		s := c27GenStream(rnd, k, "")
 		if _, _, err := c27Run(filepath.Join(dir, fmt.Sprintf("s%02d", k)), s); err != nil {
 			t.Fatal(err)
 		}
@@ -189,7 +189,7 @@ func c27StraceCases(t *testing.T, out *vOut, seed uint64, root string, n int) {
 	rnd := vNewRand(seed + 77)
 	total, writes := 0, 0
 	for k := 0; k < n; k++ {
-		s := c27GenStream(rnd, k)
+		s := c27GenStream(rnd, k, "")
 		var terms []string
 		var descs []any
 		var paths []string
